@@ -122,11 +122,25 @@ def py_layout(r):
     ok = bool(hs) and pf.is_text(hs[0].value, "np.hstack((total, weight_norm, weighted_form, weighted_shell, weighted_radius))")
     r.check(ok, KP, "_loops", pf.unparse(hs[0]) if hs else "result = hstack(...)", hs[0].lineno if hs else 0,
             "same slot order as the C kernel: q values, total weight, form, shell, radius")
-    k = pf.lib("kernel").func("Kernel.Fq")
-    t = pf.unparse(k)
-    for i, nm in enumerate(("total_weight", "form_volume", "shell_volume", "radius_effective")):
-        r.check("%s = self.result[nout * self.q_input.nq + %d]" % (nm, i) in t, "sasmodels/kernel.py", "Kernel.Fq",
-                "%s read from slot nq_out + %d" % (nm, i), k.lineno, "reader agrees with both writers")
+    from ..pyroles import kernel_fq
+    from .. import nf
+    k = kernel_fq()
+    R = lambda i: nf.sym("R%d" % i)
+    ret = k["ret"]
+    used = set()
+    for e in ret:
+        used |= {str(x) for x in e.free_symbols if str(x).startswith("R")}
+    r.check({"R0", "R1", "R2", "R3"} <= used | {str(x) for g, pre, st in k["guards"] if pre is not None for x in pre.free_symbols},
+            "sasmodels/kernel.py", "Kernel.Fq", "reader consumes slots nq_out + 0..3", k["fn"].lineno,
+            "total weight, form volume, shell volume, effective radius (formula in R-C01-norm)")
+    # which slot feeds which returned quantity (numerator slot of each return element)
+    def numerator_slot(e):
+        syms = [str(x) for x in e.free_symbols if str(x).startswith("R")]
+        return sorted(syms)
+    r.check(numerator_slot(ret[2]) == ["R3"], "sasmodels/kernel.py", "Kernel.Fq", "R_eff read from slot nq_out + 3", k["return"].lineno)
+    r.check("R1" in numerator_slot(ret[4]), "sasmodels/kernel.py", "Kernel.Fq", "V_form read from slot nq_out + 1", k["return"].lineno)
+    gshell = [pre for g, pre, st in k["guards"] if pre is not None and "R2" in {str(x) for x in pre.free_symbols}]
+    r.check(bool(gshell), "sasmodels/kernel.py", "Kernel.Fq", "V_shell read from slot nq_out + 2", k["return"].lineno)
     # python accumulation statements
     t = pf.unparse(lp)
     for frag in ("total += weight * Iq", "weight_norm += weight", "weighted_shell += weight * unweighted_shell",
@@ -219,8 +233,9 @@ def py_args(r):
     g = pf.lib("generate")
     ms = g.func("make_source")
     mt = pf.unparse(ms)
-    r.check("model_refs = _call_pars(base_table.iq_parameters, subs)" in mt and "refs = _call_pars(base_table.form_volume_parameters, subs)" in mt,
-            "sasmodels/generate.py", "make_source", "C macros from iq_parameters / form_volume_parameters", ms.lineno)
+    lists = {pf.unparse(c.args[0]) for c in pf.calls_in(ms) if pf.call_name(c) == "_call_pars" and c.args}
+    r.check({"base_table.iq_parameters", "base_table.form_volume_parameters"} <= lists,
+            "sasmodels/generate.py", "make_source", "C macros from iq_parameters / form_volume_parameters", ms.lineno, "%s" % sorted(lists))
     dx = mod.func("_create_vector_Iqxy")
     r.check("return Iq(np.sqrt(qx ** 2 + qy ** 2), *args)" in pf.unparse(dx), KP, "_create_vector_Iqxy", "default Iqxy = Iq(|q|)", dx.lineno,
             "as CALL_IQ_A does in C")
